@@ -518,7 +518,7 @@ def classify(events, wset, obs, exc) -> List[str]:
     explained exactly is 'unclassified' (fields that differ + last operator)."""
     if exc is not None:
         return [f"C05/exception:{gfx.exc_sig(exc)}"]
-    for k in range(1, len(DEVIATIONS) + 1):
+    for k in (1, 2):
         for devs in itertools.combinations(DEVIATIONS, k):
             try:
                 alt = run_model(events, wset, frozenset(devs))
@@ -561,12 +561,12 @@ class Checker:
         st.case((self.wset, tuple(streams), full), nontrivial=bool(exp),
                 outcome=h64([(o["text"], o["font"], o["matrix"], o["adv"], o["fill"]) for o in obs]) if exc is None else gfx.exc_sig(exc))
         if bad:
-            if self.classified <= 300:
+            if self.classified <= 40:
                 sigs = classify(evs, self.wset, obs, exc)
                 if "unclassified" in sigs[0]:
                     self.classified += 1
             else:
-                sigs = ["C05/unclassified-bulk(more than 300 unexplained failing cases in one shard)"]
+                sigs = ["C05/unclassified-bulk(more than 40 unexplained failing cases in one shard)"]
             for sig in sigs:
                 st.violation(
                     sig,
